@@ -2117,6 +2117,36 @@ class C04(Oracle):
                 env.reset()
                 s = ref.functional_reset()
         out.extend(self._outer(c))
+        if not out and 'custom' in c:
+            out.extend(self._odd_reward(c))
+        return out
+
+    def _odd_reward(self, c):
+        """an environment of the user's whose reward function answers with something that is no number for one
+        action (a branch that forgot its return): whether the step then raises or not, the observation read
+        afterwards is the observation of the state the environment is in"""
+        out = []
+        try:
+            env = custom_env(c['custom'])
+        except Exception:
+            return out
+        orig = env._reward_function
+        odd = ACTIONS[c['seed'] % 6]
+        env._reward_function = lambda s, a, s2, rng=None: None if a is odd else orig(s, a, s2, rng=rng)
+        env.set_seed(c['seed'])
+        env.reset()
+        for k, ai in enumerate([odd.value] + list(c['actions'][:6]) + [odd.value]):
+            try:
+                env.observation
+                env.step(ACTIONS[ai])
+            except Exception:
+                pass
+            try:
+                if not obs_eq(env.observation, env.functional_observation(env.state)):
+                    out.append(V('stateful/stale-or-wrong-observation', f'user-reset environment {c["custom"]} whose reward is None for {odd.name}: after step {k} ({ACTIONS[ai].name}) the observation is not that of the current state'))
+                    break
+            except Exception:
+                break
         return out
 
     def _outer(self, c):
